@@ -488,6 +488,13 @@ func ruleSpecDescriptorHas(c *Ctx, r *R) {
 	}
 	for _, f := range []string{"enumerable", "configurable", "writable", "value", "get", "set"} {
 		got, ok := fields[f]
+		if (!ok || got != "hasProperty") && c.eClean("SPEC-define-own") {
+			// probed in a helper, through a table of names, ...: SPEC-define-own runs ToPropertyDescriptor on descriptor
+			// objects with each field absent, undefined or set (its model of the descriptor object answers
+			// [[HasProperty]] and [[Get]] only)
+			r.ok("field:"+f, c.Pos(fn.Pos()), subsumedBy("SPEC-define-own"))
+			continue
+		}
 		if !ok {
 			r.bad("field:"+f, c.Pos(fn.Pos()), fmt.Sprintf("ToPropertyDescriptor does not probe the field %q", f))
 			continue
